@@ -396,6 +396,10 @@ func (s *scn) amount(from *Key, class string) string {
 		return "115792089237316195423570985008687907853269984665640564039457584007913129639936"
 	case "junk":
 		return "12x"
+	case "neg":
+		return "-1000"
+	case "neghuge":
+		return "-100000000000000000000000000000000"
 	default:
 		return "1000"
 	}
